@@ -110,14 +110,21 @@ private:
             }
 
             const Complex lambdaj = (err1 < err2) ? root1 : root2;
+            // The next slot belongs to the conjugate eigenvalue only if the next Ritz value
+            // is the conjugate partner of this one. A real (not yet converged) Ritz value can
+            // also map to a complex root, and then the next slot holds an unrelated Ritz value
+            // that must not be overwritten
+            const bool has_conj = (i + 1 < m_ritz_val.size()) &&
+                (Eigen::numext::imag(nu) != Scalar(0)) &&
+                (m_ritz_val[i + 1] == Eigen::numext::conj(nu));
             m_ritz_val[i] = lambdaj;
 
-            if (abs(Eigen::numext::imag(lambdaj)) > eps)
+            if (has_conj && abs(Eigen::numext::imag(lambdaj)) > eps)
             {
                 m_ritz_val[i + 1] = Eigen::numext::conj(lambdaj);
                 i++;
             }
-            else
+            else if (abs(Eigen::numext::imag(lambdaj)) <= eps)
             {
                 m_ritz_val[i] = Complex(Eigen::numext::real(lambdaj), Scalar(0));
             }
